@@ -16,6 +16,12 @@ use std::collections::BTreeSet;
 
 #[derive(Clone, Copy, Debug, PartialEq, Eq)]
 pub enum MaskSpec {
+    /// exactly one square (legals_masked entry only)
+    Single(u8),
+    /// every square but one (legals_masked entry only)
+    AllBut(u8),
+    /// the four castling destinations c1 g1 c8 g8
+    CastleDests,
     All,
     Nothing,
     Enemy,
@@ -146,6 +152,9 @@ fn occupancy(rp: &Position, c: Option<Col>) -> u64 {
 
 fn mask_value(spec: MaskSpec, ctx: &Ctx, model: Option<&Model>) -> u64 {
     match spec {
+        MaskSpec::Single(s) => 1u64 << s,
+        MaskSpec::AllBut(s) => !(1u64 << s),
+        MaskSpec::CastleDests => (1u64 << 2) | (1u64 << 6) | (1u64 << 58) | (1u64 << 62),
         MaskSpec::All => !0,
         MaskSpec::Nothing => 0,
         MaskSpec::Enemy => occupancy(&ctx.rp, Some(ctx.rp.turn.flip())),
@@ -537,6 +546,12 @@ fn scripts_for(fen: &str, n_moves: usize, tier: Tier) -> Vec<Script> {
             }
         }
     }
+    // every single-square generation mask and its complement (0 mutators; closed by the final widening)
+    for s in 0..64u8 {
+        v.push(Script { fen: fen.into(), entry: MaskSpec::Single(s), steps: vec![] });
+        v.push(Script { fen: fen.into(), entry: MaskSpec::AllBut(s), steps: vec![] });
+    }
+    v.push(Script { fen: fen.into(), entry: MaskSpec::CastleDests, steps: vec![] });
     // legals() x 2 mutators at every pair of points
     for a in 0..=n_moves {
         for b in 0..=(n_moves - a) {
@@ -570,6 +585,17 @@ fn script_json(s: &Script) -> Value {
 }
 
 fn parse_mask(s: &str) -> MaskSpec {
+    if s == "CastleDests" {
+        return MaskSpec::CastleDests;
+    }
+    for q in 0..64u8 {
+        if format!("{:?}", MaskSpec::Single(q)) == s {
+            return MaskSpec::Single(q);
+        }
+        if format!("{:?}", MaskSpec::AllBut(q)) == s {
+            return MaskSpec::AllBut(q);
+        }
+    }
     ALL_MASKS.iter().copied().find(|m| format!("{m:?}") == s).unwrap_or_else(|| machinery_failure("bad mask spec"))
 }
 fn parse_mutator(s: &str) -> Mutator {
@@ -624,7 +650,7 @@ pub fn run_c10(args: &Args) -> i32 {
             "traces_validated_against_impl": total_runs,
             "evaluations": total_runs,
             "distinct_nontrivial": nontrivial_runs,
-            "rule": "for every catalogue position (both colours): each of 9 generation entry points (legals, legals_masked(m)) with 0 or 1 mutator at every point, and legals() with every ordered pair of mutators at every pair of points (thorough: every triple on positions with <= 12 moves); every run ends with a final set_mask(all) + drain when the mask is not already full; 32 mutator instances (set_mask x 11 masks, remove x 11 masks, remove_move x 9 move choices, clone-and-continue); every run is driven to exhaustion on the real MoveGen and len / is_empty / size_hint / ExactSizeIterator::len are compared with the set model after every step. states = iterator steps executed (each step is checked); non-trivial = runs containing at least one mutator.",
+            "rule": "for every catalogue position (both colours): each of 9 generation entry points (legals, legals_masked(m)) with 0 or 1 mutator at every point, legals_masked of every single square, of every all-but-one-square mask and of the castling destinations, and legals() with every ordered pair of mutators at every pair of points (thorough: every triple on positions with <= 12 moves); every run ends with a final set_mask(all) + drain when the mask is not already full; 32 mutator instances (set_mask x 11 masks, remove x 11 masks, remove_move x 9 move choices, clone-and-continue); every run is driven to exhaustion on the real MoveGen and len / is_empty / size_hint / ExactSizeIterator::len are compared with the set model after every step. states = iterator steps executed (each step is checked); non-trivial = runs containing at least one mutator.",
             "positions": positions.len(),
             "mutator_instances": all_mutators().len(),
             "per_position": per_pos,
